@@ -136,6 +136,9 @@ package ledger
 //@   at fieldwrite.meta assert [C04] tip_stays_or_moves_to_the_new_block: !isRoot ==> (newMeta.TipBlockid == block.Blockid || newMeta.TipBlockid == l.meta.TipBlockid) && newMeta.TrunkHeight >= l.meta.TrunkHeight && (newMeta.TipBlockid != l.meta.TipBlockid ==> newMeta.TrunkHeight > l.meta.TrunkHeight)
 //@   at Ledger.handleFork assert [C04] switch_only_to_a_strictly_higher_block: preBlock.Height + 1 > l.meta.TrunkHeight && newMeta.TrunkHeight == preBlock.Height + 1 && newMeta.TipBlockid == block.Blockid && (block != preBlock ==> block.Height == preBlock.Height + 1) && bytesEq($0, l.meta.TipBlockid) && bytesEq($1, preBlock.Blockid) && bytesEq($2, block.Blockid) && $3 == batchWrite
 //@   at Ledger.saveBlock#1 assert [C04] extension_moves_the_tip_by_one: $0 == preBlock && bytesEq(preBlock.Blockid, l.meta.TipBlockid) && newMeta.TrunkHeight == l.meta.TrunkHeight + 1 && newMeta.TipBlockid == block.Blockid && preBlock.NextHash == block.Blockid && (block != preBlock ==> block.Height == preBlock.Height + 1) && $1 == batchWrite
+// The block is stored with the trunk flag the LEDGER decided: flagged only if it became the
+// tip (whatever flag the submitted copy carried - neither id nor signature cover it).
+//@   at Ledger.saveBlock#2 assert [C04] stored_flag_is_the_ledgers_decision: $0 == block && $1 == batchWrite && (block.InTrunk ==> newMeta.TipBlockid == block.Blockid)
 //@   loop 1 invariant [C04] tip_rule_prepared: newMeta != nil && l.meta == old(l.meta) && (!isRoot ==> (newMeta.TipBlockid == block.Blockid || newMeta.TipBlockid == l.meta.TipBlockid) && newMeta.TrunkHeight >= l.meta.TrunkHeight && (newMeta.TipBlockid != l.meta.TipBlockid ==> newMeta.TrunkHeight > l.meta.TrunkHeight))
 
 // Removing the blocks of a branch only prepares deletes in the caller's batch:
